@@ -122,3 +122,85 @@ for _n, _w in (("BYTE", 1), ("WORD", 2), ("DWORD", 4), ("LWORD", 8), ("ENGUNIT",
         params={"buffer": P.oneof(P.bytes(), P.stream(P.bytes()), P.const("None"), P.any())},
         ref=f"spec.cip_codec.decode_bits('{_n}', buffer)", compare=["result", "exc", "stream:buffer"],
         props=["C06", "C07", "C08"])
+
+# ------------------------------------------------------------------ STRINGI (international string: count, then language / type / character set / string)
+_SK = {"STRING": 0xFF, "SHORT_STRING": 0xFF, "STRING2": 0xFFFF, "STRINGN": 0x7F}
+_LANG = P.oneof(P.str(maxcp=0x7F, minlen=3, maxlen=3), P.str(maxcp=0xFFFF, maxlen=5), P.const("None"), P.const("b'eng'"))
+contract(
+    id="stringi.encode.0", func=DT + "STRINGI.encode", call=DT + "STRINGI.encode()", ensures=["result == b'\\x00'"],
+    props=["C06", "C07", "C08"])
+for _k1 in _SK:
+    contract(
+        id=f"stringi.encode.1.{_k1}", func=DT + "STRINGI.encode", call=f"{DT}STRINGI.encode((text, {DT}{_k1}, lang, cs))",
+        params={"text": P.oneof(P.str(maxcp=0xFFFF if _k1 == "STRING2" else 0x10FFFF), P.const("None"), P.const("5")), "lang": _LANG,
+                "cs": P.oneof(P.int(), P.const("None"), P.const("'4'"))},
+        ref=f"spec.cip_codec.encode_stringi([(text, '{_k1}', lang, cs)])", props=["C06", "C07", "C08"], max_paths=20000)
+    contract(
+        id=f"stringi.roundtrip.1.{_k1}", func=DT + "STRINGI.decode", call=DT + "STRINGI.decode(buffer)",
+        params={"text": P.str(maxcp=_SK[_k1], maxlen=254), "lang": P.str(maxcp=0x7F, minlen=3, maxlen=3), "cs": P.int(0, 65535), "rest": P.bytes()},
+        setup=[f"buffer = io.BytesIO(spec.cip_codec.encode_stringi([(text, '{_k1}', lang, cs)]) + rest)"],
+        ensures=["result == ([text], [lang], [cs])", "buffer.read() == rest"], props=["C06", "C07"], max_paths=20000)
+contract(
+    id="stringi.encode.2", func=DT + "STRINGI.encode",
+    call=f"{DT}STRINGI.encode((t1, kinds[0], l1, c1), (t2, kinds[1], l2, c2))",
+    bind={"kinds": [f"({DT}STRING, {DT}STRING2)", f"({DT}SHORT_STRING, {DT}STRINGN)", f"({DT}STRINGN, {DT}STRING)"]},
+    params={"t1": P.str(maxcp=0xFFFF), "t2": P.str(maxcp=0xFFFF), "l1": P.str(maxcp=0xFF, maxlen=4), "l2": P.str(maxcp=0x7F, minlen=3, maxlen=3),
+            "c1": P.int(), "c2": P.int()},
+    ref="spec.cip_codec.encode_stringi([(t1, kinds[0].__name__, l1, c1), (t2, kinds[1].__name__, l2, c2)])",
+    props=["C06", "C07", "C08"], max_paths=20000)
+contract(
+    id="stringi.roundtrip.2", func=DT + "STRINGI.decode", call=DT + "STRINGI.decode(buffer)",
+    bind={"kinds": ["('STRING', 'SHORT_STRING')", "('SHORT_STRING', 'STRINGN')", "('STRING2', 'STRING')"]},
+    params={"t1": P.str(maxcp=0x7F, maxlen=254), "t2": P.str(maxcp=0x7F, maxlen=254), "l1": P.str(maxcp=0x7F, minlen=3, maxlen=3),
+            "l2": P.str(maxcp=0x7F, minlen=3, maxlen=3), "c1": P.int(0, 65535), "c2": P.int(0, 65535), "rest": P.bytes()},
+    setup=["buffer = io.BytesIO(spec.cip_codec.encode_stringi([(t1, kinds[0], l1, c1), (t2, kinds[1], l2, c2)]) + rest)"],
+    ensures=["result == ([t1, t2], [l1, l2], [c1, c2])", "buffer.read() == rest"], props=["C06", "C07"], max_paths=20000)
+# every truncation / corruption of a buffer: the reference decides; buffers of at most 2 entries of STRING / SHORT_STRING
+contract(
+    id="stringi.decode", func=DT + "STRINGI.decode", call=DT + "STRINGI.decode(buffer)",
+    params={"buffer": P.oneof(P.bytes(maxlen=18), P.stream(P.bytes(maxlen=18)), P.const("None"), P.any())},
+    ref="spec.cip_codec.decode_stringi(buffer)", compare=["result", "exc", "stream:buffer"], props=["C06", "C07", "C08"],
+    max_paths=40000, note="buffer length bounded by 18 bytes (entries are at least 7 bytes): at most 2 entries; all contents",
+    bounded="entries of type STRING2 / STRINGN decode UTF-16 / UTF-8 code units: outside the engine's string model")
+contract(   # the part within the string model: one entry of a one-byte-character type, every truncation and corruption
+    id="stringi.decode.latin1", func=DT + "STRINGI.decode", call=DT + "STRINGI.decode(buffer)",
+    params={"data": P.bytes(maxlen=11), "as_stream": P.bool()},
+    requires=["len(data) < 5 or (data[4] != 0xD5 and data[4] != 0xD9)"],
+    setup=["buffer = io.BytesIO(data) if as_stream else data"],
+    ref="spec.cip_codec.decode_stringi(buffer)", compare=["result", "exc", "stream:buffer"], props=["C06", "C07", "C08"],
+    max_paths=40000)
+
+# ------------------------------------------------------------------ PCCC string element types (exported by pycomm3.cip)
+PC = "pycomm3.cip.pccc."
+_WRONG = [P.const("None"), P.const("5"), P.const("b'ab'"), P.any()]
+contract(
+    id="pccc.ascii.encode", func=DT + "DataType.encode", call="cls.encode(value)", bind={"cls": [PC + "PCCC_ASCII"]},
+    params={"value": P.oneof(P.str(maxcp=0xFFFF, maxlen=6), *_WRONG)},
+    ref="spec.cip_codec.encode_pccc_ascii(value)", props=["C06", "C07", "C08"])
+contract(
+    id="pccc.ascii.decode", func=DT + "DataType.decode", call="cls.decode(buffer)", bind={"cls": [PC + "PCCC_ASCII"]},
+    params={"buffer": P.oneof(P.bytes(), P.stream(P.bytes()), P.const("None"), P.any())},
+    ref="spec.cip_codec.decode_pccc_ascii(buffer)", compare=["result", "exc", "stream:buffer"], props=["C06", "C07", "C08"])
+contract(
+    id="pccc.string.encode", func=DT + "DataType.encode", call="cls.encode(value)", bind={"cls": [PC + "PCCC_STRING"]},
+    params={"value": P.oneof(P.str(maxcp=0xFFFF, maxlen=90), *_WRONG)},
+    ref="spec.cip_codec.encode_pccc_string(value)", props=["C06", "C07", "C08"], max_paths=20000)
+for _sfx, _req_d, _req_r, _tier in (("", "len(data) < 2 or data[0] + 256 * data[1] <= 3 or data[0] + 256 * data[1] >= 80",
+                                     "len(value) <= 3 or len(value) >= 80", "quick"), (".all", None, None, "thorough")):
+    contract(
+        id="pccc.string.decode" + _sfx, func=DT + "DataType.decode", call="cls.decode(buffer)", bind={"cls": [PC + "PCCC_STRING"]},
+        params={"data": P.oneof(P.bytes(maxlen=100), P.const("None"), P.any()), "as_stream": P.bool()},
+        requires=[f"not isinstance(data, bytes) or ({_req_d})"] if _req_d else [],
+        setup=["buffer = io.BytesIO(data) if as_stream and isinstance(data, bytes) else data"],
+        ref="spec.cip_codec.decode_pccc_string(buffer)", compare=["result", "exc", "stream:buffer"], props=["C06", "C07", "C08"],
+        max_paths=20000, tier=_tier, note="the quick tier takes the LEN fields 0..3 and >= 80, the thorough tier all of them")
+    contract(
+        id="pccc.string.roundtrip" + _sfx, func=DT + "DataType.decode", call="cls.decode(buffer)", bind={"cls": [PC + "PCCC_STRING"]},
+        params={"value": P.str(maxcp=0xFF, maxlen=82), "rest": P.bytes()}, requires=[_req_r] if _req_r else [],
+        setup=["buffer = io.BytesIO(spec.cip_codec.encode_pccc_string(value) + rest)"],
+        ensures=["result == value", "buffer.read() == rest"], props=["C06", "C07"], max_paths=20000, tier=_tier)
+contract(
+    id="pccc.ascii.roundtrip", func=DT + "DataType.decode", call="cls.decode(buffer)", bind={"cls": [PC + "PCCC_ASCII"]},
+    params={"value": P.str(maxcp=0xFF, minlen=2, maxlen=2), "rest": P.bytes()},
+    setup=["buffer = io.BytesIO(spec.cip_codec.encode_pccc_ascii(value) + rest)"],
+    ensures=["result == value", "buffer.read() == rest"], props=["C06", "C07"])
